@@ -32,7 +32,9 @@ struct Rec {
 class RecMonitor : public InterpreterMonitor {
 public:
 	Rec* r;
+	std::string only;      // if set: the session whose notifications are recorded (invoked sessions inherit the monitor)
 	RecMonitor(Rec* rec) : r(rec) {}
+	bool mine(const std::string& sid) const { return only.empty() || sid == only; }
 	static std::string sid(const DOMElement* s) {
 		std::string id = attr(s, "id");
 		if (id.size()) return id;
@@ -54,25 +56,25 @@ public:
 		std::string uv = attr(x, "uvid");
 		return uv.size() ? uv : "?" + X(x->getLocalName()).str();
 	}
-	void beforeProcessingEvent(const std::string&, const Event& e) { r->add("bpe:" + e.name); }
-	void beforeMicroStep(const std::string&) { r->add("bm"); }
-	void beforeExitingState(const std::string&, const std::string&, const DOMElement* s) { r->add("bx:" + sid(s)); }
-	void afterExitingState(const std::string&, const std::string&, const DOMElement* s) { r->add("ax:" + sid(s)); }
-	void beforeExecutingContent(const std::string&, const DOMElement* x) { r->add("bc:" + xid(x)); }
-	void afterExecutingContent(const std::string&, const DOMElement* x) { r->add("ac:" + xid(x)); }
-	void beforeUninvoking(const std::string&, const DOMElement* x, const std::string&) { r->add("bu:" + attr(x, "id")); }
-	void afterUninvoking(const std::string&, const DOMElement* x, const std::string&) { r->add("au:" + attr(x, "id")); }
-	void beforeTakingTransition(const std::string&, const DOMElement* t) { r->add("bt:" + tid(t)); }
-	void afterTakingTransition(const std::string&, const DOMElement* t) { r->add("at:" + tid(t)); }
-	void beforeEnteringState(const std::string&, const std::string&, const DOMElement* s) { r->add("be:" + sid(s)); }
-	void afterEnteringState(const std::string&, const std::string&, const DOMElement* s) { r->add("ae:" + sid(s)); }
-	void beforeInvoking(const std::string&, const DOMElement* x, const std::string&) { r->add("bi:" + attr(x, "id")); }
-	void afterInvoking(const std::string&, const DOMElement* x, const std::string&) { r->add("ai:" + attr(x, "id")); }
-	void afterMicroStep(const std::string&) { r->add("am"); }
-	void onStableConfiguration(const std::string&) { r->add("st"); }
-	void beforeCompletion(const std::string&) { r->add("bcomp"); }
-	void afterCompletion(const std::string&) { r->add("acomp"); }
-	void reportIssue(const std::string&, const InterpreterIssue&) { r->add("issue"); }
+	void beforeProcessingEvent(const std::string& sid_, const Event& e) { if (!mine(sid_)) return; r->add("bpe:" + e.name); }
+	void beforeMicroStep(const std::string& sid_) { if (!mine(sid_)) return; r->add("bm"); }
+	void beforeExitingState(const std::string& sid_, const std::string&, const DOMElement* s) { if (!mine(sid_)) return; r->add("bx:" + sid(s)); }
+	void afterExitingState(const std::string& sid_, const std::string&, const DOMElement* s) { if (!mine(sid_)) return; r->add("ax:" + sid(s)); }
+	void beforeExecutingContent(const std::string& sid_, const DOMElement* x) { if (!mine(sid_)) return; r->add("bc:" + xid(x)); }
+	void afterExecutingContent(const std::string& sid_, const DOMElement* x) { if (!mine(sid_)) return; r->add("ac:" + xid(x)); }
+	void beforeUninvoking(const std::string& sid_, const DOMElement* x, const std::string&) { if (!mine(sid_)) return; r->add("bu:" + attr(x, "id")); }
+	void afterUninvoking(const std::string& sid_, const DOMElement* x, const std::string&) { if (!mine(sid_)) return; r->add("au:" + attr(x, "id")); }
+	void beforeTakingTransition(const std::string& sid_, const DOMElement* t) { if (!mine(sid_)) return; r->add("bt:" + tid(t)); }
+	void afterTakingTransition(const std::string& sid_, const DOMElement* t) { if (!mine(sid_)) return; r->add("at:" + tid(t)); }
+	void beforeEnteringState(const std::string& sid_, const std::string&, const DOMElement* s) { if (!mine(sid_)) return; r->add("be:" + sid(s)); }
+	void afterEnteringState(const std::string& sid_, const std::string&, const DOMElement* s) { if (!mine(sid_)) return; r->add("ae:" + sid(s)); }
+	void beforeInvoking(const std::string& sid_, const DOMElement* x, const std::string&) { if (!mine(sid_)) return; r->add("bi:" + attr(x, "id")); }
+	void afterInvoking(const std::string& sid_, const DOMElement* x, const std::string&) { if (!mine(sid_)) return; r->add("ai:" + attr(x, "id")); }
+	void afterMicroStep(const std::string& sid_) { if (!mine(sid_)) return; r->add("am"); }
+	void onStableConfiguration(const std::string& sid_) { if (!mine(sid_)) return; r->add("st"); }
+	void beforeCompletion(const std::string& sid_) { if (!mine(sid_)) return; r->add("bcomp"); }
+	void afterCompletion(const std::string& sid_) { if (!mine(sid_)) return; r->add("acomp"); }
+	void reportIssue(const std::string& sid_, const InterpreterIssue&) { if (!mine(sid_)) return; r->add("issue"); }
 };
 
 class RecLogger : public LoggerImpl {
@@ -145,6 +147,7 @@ static std::string traceOne(const std::string& engine, const std::string& events
 			name(interp.getImpl()->getDocument()->getDocumentElement());
 		}
 		RecMonitor* mon = new RecMonitor(&rec);
+		mon->only = interp.getImpl()->getSessionId();
 		interp.addMonitor(mon);
 		InterpreterState s = interp.step(0);
 		rec.add(std::string("ret:") + retName(s));
@@ -176,6 +179,7 @@ static Interpreter& makeInterp(const std::string& engine, const std::string& xml
 		al.microStepper = Factory::getInstance()->createMicroStepper(engine, (MicroStepCallbacks*)interp.getImpl().get());
 	interp.setActionLanguage(al);
 	RecMonitor* mon = new RecMonitor(&rec);
+	mon->only = interp.getImpl()->getSessionId();
 	interp.addMonitor(mon);
 	return interp;
 }
